@@ -2,6 +2,7 @@
 //! chooser, big collections across the pre-allocation bound, version migrations, cross-version records.
 use super::c13_io::{ds, u64s, u8s};
 use super::c13_ser::{stype_rt, ver, ver_u64};
+use super::c13_uni as uni;
 use super::{known_delta_u, known_gv, Ctx, STRATS};
 use crate::util::*;
 use serde_json::{json, Value};
@@ -142,7 +143,8 @@ pub fn complex_big(cx: &mut Ctx, which: usize, n: usize, seed: u64, tail: &[u8])
     let cj = json!({"cell": "complex_big", "which": which, "n": n, "seed": seed.to_string(), "tail": tail});
     if !cx.gate(&cj) { return; }
     cx.sum.eval(&cell, &cj.to_string(), true);
-    cx.sum.cell_status(&cell, "S-only");
+    // model tie (type-universe model) for the sizes a Coq list literal can carry: n = 300 and, element size permitting, 4095..4097
+    uni::stash_clear();
     let r = guarded(|| -> R<()> {
         let mut r = Rng::new(seed ^ 0xB16);
         match which {
@@ -158,7 +160,7 @@ pub fn complex_big(cx: &mut Ctx, which: usize, n: usize, seed: u64, tail: &[u8])
             _ => stype_rt(&(0..n / 16 + 1).map(|i| (0..(i % 33)).map(|j| (i * 31 + j) as u16).collect::<Vec<u16>>()).collect::<Vec<Vec<u16>>>(), tail),
         }
     });
-    match r { Err(p) => cx.sum.fail(&cell, None, cj, &format!("panicked: {}", p)), Ok(Err(why)) => cx.sum.fail(&cell, None, cj, &why), Ok(Ok(())) => {} }
+    match r { Err(p) => cx.sum.fail(&cell, None, cj, &format!("panicked: {}", p)), Ok(Err(why)) => cx.sum.fail(&cell, None, cj, &why), Ok(Ok(())) => cx.coq_uni(&cell, 2, true) }
 }
 
 // ------------------------------------------------------------------------------------------
@@ -226,7 +228,9 @@ pub fn versioning_x(cx: &mut Ctx, kind: usize, ints: &[u64], ss: &[String], tail
     let cj = json!({"cell": "versioning_x", "kind": kind, "ints": ds(ints), "strs": ss, "tail": tail});
     if !cx.gate(&cj) { return; }
     cx.sum.eval(&cell, &cj.to_string(), true);
-    cx.sum.cell_status(&cell, "S-only");
+    // cross-version records are tied to the versioned-record model; migrations are oracle-only
+    if kind != 0 { cx.sum.cell_status(&cell, "S-only"); }
+    uni::rstash_clear();
     let i = |k: usize| ints.get(k).copied().unwrap_or(0);
     let name = ss.first().cloned().unwrap_or_default();
     let r = guarded(|| -> R<()> {
@@ -244,6 +248,11 @@ pub fn versioning_x(cx: &mut Ctx, kind: usize, ints: &[u64], ss: &[String], tail
                     VersionConfig { strict_version_checking: false, allow_forward_compatibility: i(4) % 2 == 0, max_version_skew: u16::MAX, enable_migrations: false },
                     VersionConfig { strict_version_checking: i(4) % 3 == 0, allow_forward_compatibility: true, max_version_skew: (i(4) % 7) as u16, enable_migrations: i(4) % 5 < 2 }];
                 let (got, used, outs) = read_schema(b, &all, &cfgs)?;
+                // model tie: the writer's bytes, what deserialize_versioned returned and consumed, every serializer configuration's verdict
+                let vb = Version::from_u32(SCHEMAS[b]);
+                uni::rstash_enc(va, id, &name, score, &bytes);
+                uni::rstash_dec(vb, &all, &got, used);
+                for (c, o) in cfgs.iter().zip(outs.iter()) { uni::rstash_vs(c.strict_version_checking, c.max_version_skew, c.enable_migrations, vb, &all, o); }
                 if got != want { return Err(format!("schema {} read by schema {}: got {:?}, want {:?}", va, Version::from_u32(SCHEMAS[b]), got, want)); }
                 if used != bytes.len() { return Err(format!("schema {} read by schema {}: consumed {} bytes, the record has {}", va, Version::from_u32(SCHEMAS[b]), used, bytes.len())); }
                 // the high-level reader may refuse a foreign version; what it accepts must be the record
@@ -308,7 +317,7 @@ pub fn versioning_x(cx: &mut Ctx, kind: usize, ints: &[u64], ss: &[String], tail
             }
         }
     });
-    match r { Err(p) => cx.sum.fail(&cell, None, cj, &format!("panicked: {}", p)), Ok(Err(why)) => cx.sum.fail(&cell, None, cj, &why), Ok(Ok(())) => {} }
+    match r { Err(p) => cx.sum.fail(&cell, None, cj, &format!("panicked: {}", p)), Ok(Err(why)) => cx.sum.fail(&cell, None, cj, &why), Ok(Ok(())) => if kind == 0 { cx.coq_rec(&cell, 40) } }
     let _ = (ver(0), ver_u64(0, 0, 0));
 }
 
@@ -340,6 +349,8 @@ pub fn run_all(cx: &mut Ctx, thorough: bool) {
             }
         }
     }
+    // the model-tied size first (the per-cell Coq budget is spent in order)
+    for which in 0..10 { complex_big(cx, which, 300 + which, 7, if which % 2 == 0 { &[1, 0, 0, 0, 9] } else { &[] }); }
     for (k, &n) in [4095usize, 4096, 4097, 65536, 70000].iter().enumerate() {
         for which in 0..10 {
             if !thorough && n > 5000 && (which + k) % 3 != 0 { continue; }
